@@ -5,8 +5,8 @@
 
   The logic has no rounding, so it is modelled over exact data:
   * `XF`      extended floats  (finite rational | +inf | -inf | NaN) with the IEEE comparisons;
-  * `PyVal`   a syntax of Python values with CPython's `isinstance` / `float()` coercion rules and
-              `jax.numpy.asarray(·, dtype=float)` transcribed;
+  * `PyVal`   a syntax of Python values with CPython's `isinstance` / `float()` / `int()` coercion rules
+              and `jax.numpy.asarray(·, dtype=float)` transcribed;
   * `Outcome` value | ValueError | TypeError | internal error (any other exception class).
 
   Core Lean only; everything is executable (driver: MellonDriver/Validate.lean).
@@ -145,16 +145,29 @@ inductive Lib where
   | jax
   deriving DecidableEq, Repr
 
+/-- How a NumPy / JAX *integer scalar* is packaged (`validation._is_integer_scalar`: `dtype.kind in "iu"`
+    and `ndim == 0`): an instance of `numpy.integer` (`numpy.int64(5)`, `numpy.uint8(3)`: not an
+    `Iterable`), or a 0-d integer array of NumPy / JAX (an `Iterable`, as every ndarray is). -/
+inductive IntForm where
+  | npScalar
+  | arr0 (lib : Lib)
+  deriving DecidableEq, Repr
+
 /-- The value grammar of the property: None, bool, int, float (incl. NaN/±inf), str (text and the
-    result of CPython's `float(text)`: `none` = it raises ValueError), numpy / jax ndarrays (shape and
-    row-major data after conversion to float), scipy sparse matrices, lists (tuples behave alike),
-    members of the `GaussianProcessType` enum, and any other non-iterable object. -/
+    result of CPython's `float(text)`: `none` = it raises ValueError), NumPy / JAX integer scalars
+    (`npint`: any integer dtype, `i` is the exact value — |i| < 2^64 for the dtypes that exist, which no
+    definition relies on), numpy / jax ndarrays (`arr`: shape and row-major data after conversion to
+    float; the dtype is immaterial for them — every validator converts with `float()` /
+    `asarray(·, dtype=float)` — EXCEPT for 0-d arrays of an integer dtype, which are `npint`, never `arr`),
+    scipy sparse matrices, lists (tuples behave alike), members of the `GaussianProcessType` enum, and
+    any other non-iterable object. -/
 inductive PyVal where
   | none
   | bool (b : Bool)
   | int (i : Int)
   | float (x : XF)
   | str (s : String) (num : Option XF)
+  | npint (form : IntForm) (i : Int)
   | arr (lib : Lib) (shape : List Nat) (data : List XF)
   | sparse (rows cols : Nat) (data : List XF)
   | list (xs : List PyVal)
@@ -198,7 +211,8 @@ def PyVal.isInt : PyVal → Bool
   | _ => false
 
 /-- CPython / numpy 2 / jax `float(v)`: TypeError for None, containers, arrays that are not 0-d and
-    arbitrary objects; ValueError for a non-numeric string; OverflowError for a huge int. -/
+    arbitrary objects; ValueError for a non-numeric string; OverflowError for a huge int.  The integer
+    dtypes convert like C (`(double) i`, round to nearest even): the same function as for a Python int. -/
 def pyFloat : PyVal → Outcome XF
   | .none => typeError
   | .bool b => ok (XF.ofBool b)
@@ -206,6 +220,7 @@ def pyFloat : PyVal → Outcome XF
   | .float x => ok x
   | .str _ (some x) => ok x
   | .str _ Option.none => valueError
+  | .npint _ i => intToFloat i
   | .arr _ [] [x] => ok x
   | .arr _ _ _ => typeError
   | .sparse _ _ _ => typeError
@@ -236,7 +251,17 @@ def catchOverflow {α : Type} : Outcome α → Outcome α
 
 /-! ### scalar validators -/
 
-/-- `validate_float_or_int(value, name, optional)` -/
+/-- `validate_float_or_int(value, name, optional)`:
+    ```
+    if not isinstance(value, (float, int)):
+        try:    value = int(value) if _is_integer_scalar(value) else float(value)
+        except (TypeError, OverflowError): raise ValueError
+    if _isnan_scalar(value): raise ValueError
+    return value
+    ```
+    A NumPy / JAX integer scalar stays an integer: `int(value)` is exact and cannot fail, and the Python
+    int it yields then passes `_isnan_scalar` like any Python int (int64 range check; only a `uint64`
+    above 2^63 − 1 can fall outside). -/
 def validateFloatOrInt (v : PyVal) (optional : Bool) : Outcome PyVal :=
   match v, optional with
   | .none, true => ok .none
@@ -244,7 +269,9 @@ def validateFloatOrInt (v : PyVal) (optional : Bool) : Outcome PyVal :=
     if v.isFloatOrInt then
       (isnanScalar v).bind fun b => if b then valueError else ok v
     else
-      (floatCatch v).bind fun x => if x.isNan then valueError else ok (.float x)
+      match v with
+      | .npint _ i => (isnanScalar (.int i)).bind fun b => if b then valueError else ok (.int i)
+      | _ => (floatCatch v).bind fun x => if x.isNan then valueError else ok (.float x)
 
 /-- `validate_positive_float(value, name, optional, allow_inf)` -/
 def validatePositiveFloat (v : PyVal) (optional : Bool) (allowInf : Bool := false) : Outcome PyVal :=
@@ -255,12 +282,14 @@ def validatePositiveFloat (v : PyVal) (optional : Bool) (allowInf : Bool := fals
       if x.le0 then valueError else if x.isNan then valueError
       else if x.isInf && !allowInf then valueError else ok (.float x)
 
-/-- `squeeze` of a one-element jax array (numpy arrays are not instances of `jax.numpy.ndarray`). -/
+/-- `squeeze` of a one-element jax array (numpy arrays are not instances of `jax.numpy.ndarray`); a 0-d
+    jax integer array is its own squeeze. -/
 def squeezeJax1 : PyVal → PyVal
   | .arr .jax _ [x] => .arr .jax [] [x]
   | v => v
 
-/-- `validate_float(value, name, optional)` -/
+/-- `validate_float(value, name, optional)` — converts with `float()` only: a NumPy / JAX integer scalar
+    comes back as a float here. -/
 def validateFloat (v : PyVal) (optional : Bool) : Outcome PyVal :=
   match v with
   | .none => if optional then ok .none else valueError
@@ -324,6 +353,7 @@ def toArrCore : PyVal → Outcome Arr
   | .float x => ok ([], [x])
   | .str _ (some x) => ok ([], [x])
   | .str _ Option.none => valueError
+  | .npint _ i => (intToFloat i).bind fun x => ok ([], [x])
   | .arr _ shape data => ok (shape, data)
   | .sparse _ _ _ => valueError      -- numpy sees a sequence of sparse rows
   | .list xs => (toArrList xs).bind stack
@@ -340,6 +370,7 @@ def toArr (v : PyVal) : Outcome Arr :=
 /-- `isinstance(v, Iterable)` -/
 def PyVal.isIterable : PyVal → Bool
   | .str _ _ => true
+  | .npint (.arr0 _) _ => true      -- ndarray / jax.Array define `__iter__`; `numpy.integer` does not
   | .arr _ _ _ => true
   | .sparse _ _ _ => true
   | .list _ => true
